@@ -132,8 +132,223 @@ def run_c10(ctx):
                        "(back end, form, kind) parser (6 x 17); distinct = ordered (source, parser) pair")
 
 
+# ------------------------------------------------------------------ C11
+TS_MIN, TS_MAX = -377705023201000000000, 253402207200999999999
+
+
+def parse_claims(s):
+    f = s.split(",")
+    st = lambda x: None if x == "~" else unhex(x)
+    t = lambda x: None if x == "~" else int(x)
+    return {"iss": st(f[0]), "sub": st(f[1]), "aud": st(f[2]), "exp": t(f[3]), "nbf": t(f[4]), "iat": t(f[5]), "jti": st(f[6])}
+
+
+class VP:
+    """independent evaluator of the property's wording for validator expressions; returns (accepts, in_range)"""
+    def __init__(self, s):
+        self.s, self.i = s, 0
+
+    def eat(self, lit):
+        if self.s.startswith(lit, self.i):
+            self.i += len(lit)
+            return True
+        return False
+
+    def num(self):
+        j = self.i
+        if self.s[j] == "-":
+            j += 1
+        while j < len(self.s) and self.s[j].isdigit():
+            j += 1
+        v = int(self.s[self.i:j])
+        self.i = j
+        return v
+
+    def hx(self):
+        j = self.i
+        while j < len(self.s) and self.s[j] in "0123456789abcdef-":
+            j += 1
+        v = unhex(self.s[self.i:j])
+        self.i = j
+        return v
+
+    def lst(self, c):
+        res = []
+        if self.eat(")"):
+            return res
+        while True:
+            res.append(self.v(c))
+            if self.eat(")"):
+                return res
+            assert self.eat(";")
+
+    def v(self, c):
+        if self.eat("and("):
+            a = self.v(c); assert self.eat(","); b = self.v(c); assert self.eat(")")
+            return (a[0] and b[0], a[1] and b[1])
+        if self.eat("all(") or self.eat("sl("):
+            l = self.lst(c)
+            return (all(x[0] for x in l), all(x[1] for x in l))
+        for w in ("box(", "rc(", "arc(", "map("):
+            if self.eat(w):
+                a = self.v(c); assert self.eat(")")
+                return a
+        if self.eat("T"):
+            now = self.num()
+            return ((c["exp"] is None or c["exp"] >= now) and (c["nbf"] is None or c["nbf"] <= now), True)
+        if self.eat("L"):
+            now = self.num(); assert self.eat(":"); l = self.num()
+            return ((c["exp"] is None or c["exp"] >= now - l) and (c["nbf"] is None or c["nbf"] <= now + l),
+                    TS_MIN <= now - l and now + l <= TS_MAX)
+        if self.eat("E"):
+            return (c["exp"] is not None, True)
+        if self.eat("S"):
+            return (c["sub"] == self.hx(), True)
+        if self.eat("I"):
+            return (c["iss"] == self.hx(), True)
+        if self.eat("A"):
+            return (c["aud"] == self.hx(), True)
+        if self.eat("N"):
+            return (True, True)
+        raise ValueError(self.s[self.i:])
+
+
+def c11_oracle(op, impl):
+    t = op.split(" ")
+    if t[0] == "val":
+        vexpr, cl = t[1], t[2]
+    elif t[0] == "unseal.val":
+        vexpr, cl = t[2], t[3]
+    else:
+        return None
+    c = parse_claims(cl)
+    acc, inr = VP(vexpr).v(c)
+    if not inr:
+        return None  # outside the property's guard (now +- leeway not representable)
+    if impl == "panic":
+        return ("validator panicked inside the guard", "json/validate/panic")
+    ok = impl.startswith("ok")
+    if ok != acc:
+        return ("validator %s claims the specification %s" % ("accepted" if ok else "rejected", "rejects" if ok else "accepts"), "json/validate/exact")
+    if not ok and impl != "err claims":
+        return ("rejection is not a claims error: " + impl, "json/validate/errkind")
+    if t[0] == "unseal.val" and ok and impl[3:] != cl:
+        return ("unseal released different claims than were sealed", "core/unseal/claims")
+    return None
+
+
+def c11_nontrivial(op, impl):
+    t = op.split(" ")
+    v = t[1] if t[0] == "val" else t[2]
+    import re
+    shape = re.sub(r"-?[0-9a-f]+|-", "", v)
+    c = (t[2] if t[0] == "val" else t[3]).split(",")
+    pres = tuple(x != "~" for x in c)
+    return (t[0], shape, pres, impl[:4])
+
+
+def run_c11(ctx):
+    run_stream(ctx, "validators", ["c11"], policy="full", oracle=c11_oracle, nontrivial=c11_nontrivial)
+    ctx.cov["rule"] = ("every built-in validator x every boundary timestamp (now, now+-1ns, now+-leeway, now+-leeway+-1ns, range ends) x field presence; issuer/subject/audience over a string set "
+                       "incl. empty/NUL/astral; random combinator expressions to depth 3 built as real Rust values (and_then, Vec, slice, Box, Rc, Arc, map); unseal with validators on all six back ends; "
+                       "distinct = (op, expression shape, field-presence pattern, outcome)")
+
+
+# ------------------------------------------------------------------ C12 (generic pipeline part)
+def c12pipe_oracle(op, impl):
+    t = op.split(" ")
+    if t[0] != "pipe":
+        return None
+    p = unhex(t[1])
+    res = dict(x.split("=", 1) for x in impl[3:].split(" "))
+    tr = res["trace"]
+    if len(p) == 0 or p[0] != 0:
+        if tr != "-":
+            return ("decoder/validator invoked although the version's unseal failed (trace %s)" % tr, "core/pipeline/order")
+        want = {1: "invalidToken", 2: "crypto", 3: "claims", 4: "base64"}.get(p[0] if p else 1, "invalidKey")
+        if res["res"] != "err:" + want:
+            return ("error of a failing unseal not passed through unchanged", "core/pipeline/error")
+    else:
+        ct = p[1:]
+        parts = tr.split("+")
+        if parts[0] != "dec:" + (ct.hex() or "-"):
+            return ("decoder not invoked on the unsealed cleartext first", "core/pipeline/order")
+        dec_fails = len(ct) > 0 and ct[0] == 1
+        if dec_fails and (len(parts) != 1 or res["res"] != "err:payload"):
+            return ("validator ran or wrong error after a decode failure", "core/pipeline/order")
+        if not dec_fails:
+            if parts != ["dec:" + (ct.hex() or "-"), "val"]:
+                return ("validator not invoked exactly once after decode", "core/pipeline/order")
+            vcode = ct[1] if len(ct) > 1 else 0
+            want = {1: "err:claims", 2: "err:crypto"}.get(vcode, "ok:" + (ct.hex() or "-"))
+            if res["res"] != want:
+                return ("claims released although the validator rejected, or validator result not returned", "core/pipeline/validate")
+    return None
+
+
+def run_c12(ctx):
+    run_stream(ctx, "pipeline", ["c12pipe"], policy="full", oracle=c12pipe_oracle,
+               nontrivial=lambda o, i: (o.split(" ")[0], i[:40]))
+    ctx.cov["rule"] = ("scripted Version/Payload/Validate implementations drive the real SealedToken::unseal and UnsealedToken::seal through every combination of "
+                       "unseal outcome x decode outcome x validator outcome (and nonce/encode/seal outcome); trace of invoked caller code compared with the model; distinct = (op, result, trace)")
+
+
+# ------------------------------------------------------------------ C14
+def c14_oracle(op, impl):
+    t = op.split(" ")
+    if t[0] == "claims.enc":
+        if not impl.startswith("ok "):
+            return ("encoding registered claims failed", "json/claims/encode")
+        if "rfc3339=1" not in impl:
+            return ("timestamp not written as RFC 3339", "json/claims/rfc3339")
+        if "rt=1" not in impl:
+            return ("decode(encode(c)) != c", "json/claims/roundtrip")
+        c = t[1].split(",")
+        names = ["iss", "sub", "aud", "exp", "nbf", "iat", "jti"]
+        ms = [] if impl.split(" ")[1] == "." else impl.split(" ")[1].split(";")
+        keys = [unhex(m.split("=")[0]).decode() for m in ms]
+        want = [n for n, x in zip(names, c) if x != "~"]
+        if keys != want:
+            return ("wire form has members %s, expected %s (absent claims omitted, fixed order)" % (keys, want), "json/claims/members")
+        for m, n in zip(ms, want):
+            v = m.split("=")[1]
+            x = c[names.index(n)]
+            if n in ("exp", "nbf", "iat"):
+                if v != "t" + x:
+                    return ("timestamp member does not carry the claim's value to the nanosecond", "json/claims/ts")
+            elif v != "s" + x:
+                return ("string member differs from the claim", "json/claims/string")
+    elif t[0] == "claims.dec":
+        if impl.startswith("ok ") and "gen=1" not in impl:
+            return ("decoded claims disagree with what a generic JSON parser reads for the members", "json/claims/generic")
+    return None
+
+
+def c14_nontrivial(op, impl):
+    t = op.split(" ")
+    if t[0] == "claims.enc":
+        return ("enc", tuple(x != "~" for x in t[1].split(",")))
+    top = t[2]
+    if top.startswith("X:"):
+        return ("dec-raw", top)
+    ms = top[2:].split(";") if len(top) > 2 else []
+    sig = tuple((unhex(m.split("=")[0]), m.split("=")[1][0]) for m in ms)
+    return ("dec", t[1], sig, impl[:3])
+
+
+def run_c14(ctx):
+    run_stream(ctx, "claims", ["c14"], policy="okerr", oracle=c14_oracle, nontrivial=c14_nontrivial)
+    st = ctx.cov["streams"].get("claims", {})
+    ctx.cov["rule"] = ("claims.enc: all 128 absent/present combinations, strings with escapes/NUL/astral characters, timestamps over jiff's full range at ns resolution; "
+                       "claims.dec: JSON text built from generated member lists (registered/unknown/near-miss keys, every JSON value type, nulls, duplicates, permutations, three escape styles), "
+                       "compared with the model and with serde_json::Value; distinct = (member key/type signature, escape style, outcome)")
+
+
 PROPS = {
     "C15": {"run": run_c15},
     "C09": {"run": run_c09},
     "C10": {"run": run_c10},
+    "C11": {"run": run_c11},
+    "C12": {"run": run_c12},
+    "C14": {"run": run_c14},
 }
